@@ -168,6 +168,9 @@ func (r *Runner) exec(a Action) {
 		r.feat("flaky-log-reads")
 	case "restart":
 		i := r.resolve(a.Srv)
+		if a.Arg == 1 {
+			r.spoilNewestSnapshot(i)
+		}
 		r.restart(i)
 	case "restartall":
 		for i := range r.ids {
@@ -317,6 +320,31 @@ func (r *Runner) reap(in *sim.Instance) {
 		time.Sleep(time.Millisecond)
 	}
 	r.W.Violate("C17", "R3", "C17/R3/shutdown-does-not-complete", "%s: Shutdown().Error() did not return within 10 RPC time-outs + 1 s (virtual); blocked raft goroutines:\n%s", in.ID(), raftStacks())
+}
+
+// spoilNewestSnapshot: the next Open of a stopped server's newest snapshot fails
+// (a read error at start-up), provided an older one is retained and the log
+// still holds everything between the two - NewRaft then falls back.
+func (r *Runner) spoilNewestSnapshot(i int) {
+	w := r.W
+	w.Mu.Lock()
+	defer w.Mu.Unlock()
+	srv := w.Servers[r.ids[i]]
+	if in := srv.Inst; in != nil && !in.DeadLocked() && in.R != nil && in.R.State() != raft.Shutdown {
+		return // running: restart is a no-op
+	}
+	d := srv.Disk
+	newest, older := d.NewestSnap(), (*sim.Snap)(nil)
+	for _, s := range d.Snaps {
+		if s != newest && !s.Bad && (older == nil || s.Meta.Index > older.Meta.Index) {
+			older = s
+		}
+	}
+	if newest == nil || older == nil || newest.Bad || d.First() == 0 || d.First() > older.Meta.Index+1 || d.Last() < newest.Meta.Index {
+		return
+	}
+	newest.BadOnce = true
+	r.feat("newest-snapshot-unreadable-at-start-up")
 }
 
 func (r *Runner) restart(i int) {
